@@ -170,6 +170,7 @@ func runC18(c *Ctx, r *Rec) {
 		}
 	}
 	checkCellsNotShared(c, r, "D2-cells-not-shared")
+	checkArgumentsNotModified(c, r, "D1-argument-not-modified", "collection", "module")
 	r.count("slice/map parameters", nD1)
 	r.count("container results", nD2)
 	r.count("bulk operands", nD3)
